@@ -228,6 +228,17 @@ class StreamingHandler(AsyncCallbackHandler, AsyncIterator):
                 if self.current_chunk:
                     rest, self.current_chunk = self.current_chunk, ""
                     await self.push_chunk(rest)
+            elif chunk is None or chunk == "":
+                # The stream ends and the prefix never came: there is nothing to remove,
+                # what was held back goes through the regular suffix/stop logic.
+                self.prefix = None
+                if self.suffix or self.stop:
+                    await self.push_chunk(chunk)
+                else:
+                    rest, self.current_chunk = self.current_chunk, ""
+                    if rest:
+                        await self._process(rest)
+                    await self._process(chunk)
         elif self.suffix or self.stop:
             # If we have a suffix, we always check that the total current chunk does not end
             # with the suffix.
